@@ -135,6 +135,43 @@ pub fn run(rng: &mut Rng, n: usize, sink: &mut Sink) {
             }
         }
     }
+    // handles that share one buffer (or one static text) but carry different lengths
+    for t in texts.iter().take(60) {
+        let long = format!("{t}|a shared tail that differs");
+        let heap_full = LeanString::from(long.as_str());
+        let mut heap_short = heap_full.clone();
+        heap_short.truncate(t.len());
+        let st_full = LeanString::from_static_str(leak(long.clone()));
+        let mut st_short = st_full.clone();
+        st_short.truncate(t.len());
+        let mut popped = heap_full.clone();
+        popped.pop();
+        let want_pop = &long[..long.len() - 1];
+        for (name, a, b, ta, tb) in [
+            ("heap clone truncated vs full", &heap_short, &heap_full, t.as_str(), long.as_str()),
+            ("static clone truncated vs full", &st_short, &st_full, t.as_str(), long.as_str()),
+            ("heap clone popped vs full", &popped, &heap_full, want_pop, long.as_str()),
+            ("heap truncated vs static truncated", &heap_short, &st_short, t.as_str(), t.as_str()),
+        ] {
+            evals += 1;
+            if (a == b) != (ta == tb) || (b == a) != (ta == tb) || a.cmp(b) != ta.cmp(tb) || b.cmp(a) != tb.cmp(ta)
+                || a.partial_cmp(b) != ta.partial_cmp(tb) || (hash_of(a) == hash_of(b)) != (hash_of(ta) == hash_of(tb))
+                || format!("{a}") != ta || format!("{b:?}") != format!("{tb:?}")
+            {
+                fails.push(format!("{name}: texts {:?} / {:?}: ==/cmp/hash/format disagree with str", ta, tb));
+            }
+            let mut set = std::collections::BTreeSet::new();
+            set.insert(a.clone());
+            set.insert(b.clone());
+            let mut hs = std::collections::HashSet::new();
+            hs.insert(a.clone());
+            hs.insert(b.clone());
+            let want = if ta == tb { 1 } else { 2 };
+            if set.len() != want || hs.len() != want {
+                fails.push(format!("{name}: a set of the two holds {} / {} elements, expected {want}", set.len(), hs.len()));
+            }
+        }
+    }
     for f in fails.iter().take(20) {
         sink.fail(&["C17"], f.clone());
     }
